@@ -36,6 +36,7 @@ type BMCSpec struct {
 	Reach []string // reachability witnesses that must be satisfiable
 	ExpectReach []string
 	TimeoutSec int
+	Only       []string // obligation name prefixes decided for this property (empty: all); encoding/unwinding/reach obligations always run
 }
 
 type BMCViolation struct {
@@ -53,6 +54,9 @@ type BMCResult struct {
 	Discharged      int
 	ObligationNames []string
 	Samples         []interface{}
+	States          int // symbolic control locations (transactions) x (K+1) steps
+	Transitions     int // guarded outcomes x K steps encoded
+	Replayed        int
 }
 
 var bmcStats struct {
@@ -455,7 +459,7 @@ func (b *txBuilder) mover(ev *Event, held map[string]string) bool {
 
 func isBlocking(ev *Event) bool {
 	switch ev.Kind {
-	case "lock", "rlock", "send", "recv":
+	case "lock", "rlock", "send", "recv", "trysend", "park":
 		return true
 	}
 	return false
@@ -497,7 +501,7 @@ func (b *txBuilder) build(n *TNode, held map[string]string) *transaction {
 		case "unlock", "runlock":
 			delete(f.held, ev.Mutex)
 			f.post = true
-		case "send", "recv":
+		case "send", "recv", "trysend", "park":
 			f.post = true
 		case "atomic-begin":
 			f.atomic++
@@ -568,6 +572,54 @@ type bmcSystem struct {
 	nthreads int
 	problems []string
 	leafEnds map[string]int
+	porConstraints int
+}
+
+type footprint struct {
+	reads, writes map[string]bool
+	mutexes       map[string]bool
+	channel       bool
+}
+
+func txFootprint(tx *transaction) *footprint {
+	f := &footprint{reads: map[string]bool{}, writes: map[string]bool{}, mutexes: map[string]bool{}}
+	for _, o := range tx.outcomes {
+		for _, ev := range o.events {
+			switch ev.Kind {
+			case "read":
+				f.reads[ev.Cell.Key] = true
+			case "write":
+				f.writes[ev.Cell.Key] = true
+			case "lock", "unlock", "rlock", "runlock":
+				f.mutexes[ev.Mutex] = true
+			case "send", "recv", "trysend", "park":
+				f.channel = true
+			}
+		}
+	}
+	return f
+}
+
+func independent(a, b *footprint) bool {
+	if a.channel && b.channel {
+		return false
+	}
+	for m := range a.mutexes {
+		if b.mutexes[m] {
+			return false
+		}
+	}
+	for c := range a.writes {
+		if b.writes[c] || b.reads[c] {
+			return false
+		}
+	}
+	for c := range b.writes {
+		if a.reads[c] {
+			return false
+		}
+	}
+	return true
 }
 
 const pcDone = 0
@@ -623,6 +675,7 @@ func (s *bmcSystem) encode() (base []*Term, obls []*obligation) {
 	var panicWhat []string
 	var overflow []*Term
 	var gaps []*Term
+	var fireHist []map[*transaction]*Term
 	// initial state
 	for _, c := range s.cells {
 		init := c.Init
@@ -682,7 +735,7 @@ func (s *bmcSystem) encode() (base []*Term, obls []*obligation) {
 					en = tb.And(tb.Not(s.lockW(tx.first.Mutex, k)), tb.Eq(s.lockR(tx.first.Mutex, k), tb.BV(4, 0)))
 				case "rlock":
 					en = tb.Not(s.lockW(tx.first.Mutex, k))
-				case "send":
+				case "send", "trysend":
 					// rendezvous with the lowest-numbered thread waiting on the same channel
 					var partners []*Term
 					taken := tb.False
@@ -706,6 +759,12 @@ func (s *bmcSystem) encode() (base []*Term, obls []*obligation) {
 						}
 					}
 					en = tb.Or(partners...)
+					if tx.first.Kind == "trysend" {
+						// never blocks: the select reports whether the communication happened
+						base = append(base, tb.Implies(tb.And(tb.Eq(sched, tb.BV(4, uint64(t))), at),
+							tb.Eq(tx.first.Var, tb.Ite(en, tb.BV(64, 0), tb.BV(64, ^uint64(0))))))
+						en = tb.True
+					}
 				}
 				enabled := tb.And(at, en)
 				anyEnabled = append(anyEnabled, enabled)
@@ -717,6 +776,7 @@ func (s *bmcSystem) encode() (base []*Term, obls []*obligation) {
 		for _, r := range recvs {
 			fireOf[r.tx] = tb.Or(recvFire[r.tx]...)
 		}
+		fireHist = append(fireHist, fireOf)
 		// effects
 		for t := 0; t < s.nthreads; t++ {
 			for _, tx := range s.txs[t] {
@@ -827,6 +887,38 @@ func (s *bmcSystem) encode() (base []*Term, obls []*obligation) {
 		}
 		// the scheduler picks an enabled thread whenever there is one
 		base = append(base, tb.Implies(tb.Or(anyEnabled...), tb.Or(anyFire...)))
+	}
+	// ---- partial-order reduction (peephole): two adjacent independent transactions of different
+	// threads only in ascending thread order (any execution can be brought into this form by
+	// swapping adjacent independent steps, which changes neither thread-local views nor final states)
+	if os.Getenv("SYMGO_NOPOR") == "" {
+		fp := map[*transaction]*footprint{}
+		for t := 0; t < s.nthreads; t++ {
+			for _, tx := range s.txs[t] {
+				fp[tx] = txFootprint(tx)
+			}
+		}
+		npor := 0
+		for a := 0; a < s.nthreads; a++ {
+			for b := 0; b < a; b++ {
+				for _, ta := range s.txs[a] {
+					for _, tbx := range s.txs[b] {
+						if !independent(fp[ta], fp[tbx]) {
+							continue
+						}
+						for k := 0; k+1 < K; k++ {
+							fa, fb := fireHist[k][ta], fireHist[k+1][tbx]
+							if fa == nil || fb == nil || fa.IsFalse() || fb.IsFalse() {
+								continue
+							}
+							base = append(base, tb.Not(tb.And(fa, fb)))
+							npor++
+						}
+					}
+				}
+			}
+		}
+		s.porConstraints = npor
 	}
 	// ---- obligations ----
 	var names []string
@@ -1102,7 +1194,7 @@ func (s *bmcSystem) describe() map[string]interface{} {
 	}
 	return map[string]interface{}{
 		"threads": th, "shared_mutable_cells": cellDesc, "mutexes": s.mutexes, "K_steps": s.K,
-		"transactions": ntx, "guarded_outcomes": nout, "leaf_ends": s.leafEnds,
+		"transactions": ntx, "guarded_outcomes": nout, "leaf_ends": s.leafEnds, "por_constraints": s.porConstraints,
 	}
 }
 
@@ -1131,11 +1223,41 @@ func (w *World) RunBMC(id string, bs BMCSpec, tier string, kfs map[string]KnownF
 		br.Summary[k] = v
 	}
 	br.Summary["tree_build_s"] = time.Since(t0).Seconds()
+	for _, txs := range sys.txs {
+		br.States += len(txs) * (sys.K + 1)
+		for _, tx := range txs {
+			br.Transitions += len(tx.outcomes) * sys.K
+		}
+	}
 	if len(sys.problems) > 0 {
 		return br
 	}
+	{
+		nout := 0
+		for _, txs := range sys.txs {
+			for _, tx := range txs {
+				nout += len(tx.outcomes)
+			}
+		}
+		if nout*sys.K > 60000 {
+			br.Inconclusive = append(br.Inconclusive, fmt.Sprintf("%s: transition system too large to unroll (%d guarded outcomes x %d steps); the code under test branches more than the engine's bound allows", bs.Name, nout, sys.K))
+			return br
+		}
+	}
 	base, obls := sys.encode()
 	base = append(base, bmcSetupPC...)
+	{
+		// drop duplicate constraints (events shared by several outcomes of a transaction)
+		seen := map[int]bool{}
+		var dedup []*Term
+		for _, b := range base {
+			if !seen[b.ID] {
+				seen[b.ID] = true
+				dedup = append(dedup, b)
+			}
+		}
+		base = dedup
+	}
 	// print the base once
 	p := NewPrinter(sys.tb)
 	for _, b := range base {
@@ -1173,6 +1295,21 @@ func (w *World) RunBMC(id string, bs BMCSpec, tier string, kfs map[string]KnownF
 		model map[string]uint64
 		out   string
 	}
+	if len(bs.Only) > 0 {
+		var keep []*obligation
+		for _, ob := range obls {
+			ok := ob.kind == "unwind" || ob.kind == "reach"
+			for _, p := range bs.Only {
+				if strings.HasPrefix(ob.name, p) {
+					ok = true
+				}
+			}
+			if ok {
+				keep = append(keep, ob)
+			}
+		}
+		obls = keep
+	}
 	results := make([]oblRes, len(obls))
 	var wg sync.WaitGroup
 	sem := make(chan struct{}, 16)
@@ -1189,7 +1326,7 @@ func (w *World) RunBMC(id string, bs BMCSpec, tier string, kfs map[string]KnownF
 				// values of the state variables only (get-model would print every definition)
 				text += "(get-value (" + strings.Join(stateVars, " ") + "))\n"
 			}
-			r := RunOneShot("z3", text, timeout, scratch)
+			r := RunOneShot(bmcSolverKind(), text, timeout, scratch)
 			or := oblRes{ob: ob, res: r.Res, dur: r.Dur, out: r.Out}
 			if r.Res == "sat" {
 				or.model = map[string]uint64{}
@@ -1339,4 +1476,13 @@ func (s *bmcSystem) traceOf(model map[string]uint64) []string {
 		}
 	}
 	return out
+}
+
+// bmcSolverKind: z3 5.1 (z3-new) preprocesses the large unrolled formulas several times faster than
+// 4.8.12 in this sandbox; SYMGO_BMC_SOLVER overrides (z3 | z3-new | cvc5).
+func bmcSolverKind() string {
+	if k := os.Getenv("SYMGO_BMC_SOLVER"); k != "" {
+		return k
+	}
+	return "z3-new"
 }
